@@ -38,14 +38,22 @@ def Sched (s : State) (t : Task) : Prop := t ∈ s.done ∨ t ∈ s.work
 /-- what processing a task must have established -/
 def Served (w : World) (s : State) : Task → Prop
   | .decl m name =>
-    ∀ d, findDecl (w.mod m) name = some d → (m, name) ∈ s.decls ∧ ∀ r ∈ d.refs, Sched s (.local m r)
+    ∀ d, findDecl (w.mod m) name = some d → (m, name) ∈ s.decls ∧ (∀ r ∈ d.refs, Sched s (.local m r)) ∧
+      ∀ q ∈ d.qrefs, Sched s (.qual m q.1 q.2)
   | .local m l =>
     match findDecl (w.mod m) l with
     | some d => Sched s (.decl m d.name)
     | none =>
       match findImport (w.mod m) l with
       | some p => (m, l) ∈ s.imports ∧ Sched s (.reqName p.2.1 p.2.2)
-      | none => True
+      | none =>
+        match findNsImport (w.mod m) l with
+        | some p => (m, l) ∈ s.imports ∧ Sched s (.reqAll p.2 false)
+        | none => True
+  | .qual m l x =>
+    match findNsImport (w.mod m) l with
+    | some p => (m, l) ∈ s.imports ∧ Sched s (.reqName p.2 x)
+    | none => Sched s (.local m l)
   | .reqName m n =>
     m ∈ s.modules ∧
     match ownExport (w.mod m) n with
@@ -91,8 +99,8 @@ theorem served_mono (w : World) {s s' : State} (h : Le s s') (t : Task) (hs : Se
   cases t with
   | decl m name =>
     intro d hd
-    obtain ⟨h1, h2⟩ := hs d hd
-    exact ⟨h.decls _ h1, fun r hr => h.sched _ (h2 r hr)⟩
+    obtain ⟨h1, h2, h3⟩ := hs d hd
+    exact ⟨h.decls _ h1, fun r hr => h.sched _ (h2 r hr), fun q hq => h.sched _ (h3 q hq)⟩
   | «local» m l =>
     simp only [Served] at hs ⊢
     cases hd : findDecl (w.mod m) l with
@@ -101,7 +109,16 @@ theorem served_mono (w : World) {s s' : State} (h : Le s s') (t : Task) (hs : Se
       simp only [hd] at hs ⊢
       cases hp : findImport (w.mod m) l with
       | some p => simp only [hp] at hs ⊢; exact ⟨h.imports _ hs.1, h.sched _ hs.2⟩
-      | none => trivial
+      | none =>
+        simp only [hp] at hs ⊢
+        cases hn : findNsImport (w.mod m) l with
+        | some p => simp only [hn] at hs ⊢; exact ⟨h.imports _ hs.1, h.sched _ hs.2⟩
+        | none => simp only [hn]
+  | qual m l x =>
+    simp only [Served] at hs ⊢
+    cases hn : findNsImport (w.mod m) l with
+    | some p => simp only [hn] at hs ⊢; exact ⟨h.imports _ hs.1, h.sched _ hs.2⟩
+    | none => simp only [hn] at hs ⊢; exact h.sched _ hs
   | reqName m n =>
     simp only [Served] at hs ⊢
     refine ⟨h.modules _ hs.1, ?_⟩
@@ -192,7 +209,19 @@ theorem le_stepLocal (w : World) (s : State) (m l : Nat) : Le s (stepLocal w s m
   · split
     · exact ⟨fun _ h => h, fun x h => mem_ins_of_mem _ x _ h, fun _ h => h, fun _ h => h, fun _ h => h, fun _ h => h,
         fun t ht => ht.elim Or.inl fun h => Or.inr (by simp [h])⟩
-    · exact Le.refl _
+    · split
+      · exact ⟨fun _ h => h, fun x h => mem_ins_of_mem _ x _ h, fun _ h => h, fun _ h => h, fun _ h => h, fun _ h => h,
+          fun t ht => ht.elim Or.inl fun h => Or.inr (by simp [h])⟩
+      · exact Le.refl _
+
+theorem le_stepQual (w : World) (s : State) (m l x : Nat) : Le s (stepQual w s m l x) := by
+  unfold stepQual
+  simp only
+  split
+  · exact ⟨fun _ h => h, fun x h => mem_ins_of_mem _ x _ h, fun _ h => h, fun _ h => h, fun _ h => h, fun _ h => h,
+      fun t ht => ht.elim Or.inl fun h => Or.inr (by simp [h])⟩
+  · exact ⟨fun _ h => h, fun _ h => h, fun _ h => h, fun _ h => h, fun _ h => h, fun _ h => h,
+      fun t ht => ht.elim Or.inl fun h => Or.inr (by simp [h])⟩
 
 theorem le_stepDecl (w : World) (s : State) (m name : Nat) : Le s (stepDecl w s m name) := by
   unfold stepDecl
@@ -259,7 +288,24 @@ theorem served_stepLocal (w : World) (s : State) (m l : Nat) :
     · rename_i p hp
       simp only [hd, hp]
       exact ⟨mem_ins _ _, Or.inr (by simp)⟩
-    · rename_i hp; simp [hd, hp]
+    · rename_i hp
+      split
+      · rename_i q hq
+        simp only [hd, hp, hq]
+        exact ⟨mem_ins _ _, Or.inr (by simp)⟩
+      · rename_i hq; simp [hd, hp, hq]
+
+theorem served_stepQual (w : World) (s : State) (m l x : Nat) :
+    Served w (stepQual w s m l x) (.qual m l x) := by
+  unfold stepQual Served
+  simp only
+  split
+  · rename_i p hp
+    simp only [hp]
+    exact ⟨mem_ins _ _, Or.inr (by simp)⟩
+  · rename_i hp
+    simp only [hp]
+    exact Or.inr (by simp)
 
 theorem served_stepDecl (w : World) (s : State) (m name : Nat) :
     Served w (stepDecl w s m name) (.decl m name) := by
@@ -267,7 +313,9 @@ theorem served_stepDecl (w : World) (s : State) (m name : Nat) :
   simp only
   intro d hd
   simp only [hd]
-  exact ⟨mem_ins _ _, fun r hr => Or.inr (List.mem_append.mpr (Or.inr (List.mem_map.mpr ⟨r, hr, rfl⟩)))⟩
+  exact ⟨mem_ins _ _,
+    fun r hr => Or.inr (List.mem_append.mpr (Or.inl (List.mem_append.mpr (Or.inr (List.mem_map.mpr ⟨r, hr, rfl⟩))))),
+    fun q hq => Or.inr (List.mem_append.mpr (Or.inr (List.mem_map.mpr ⟨q, hq, rfl⟩)))⟩
 
 /-- one iteration of the loop keeps the invariant -/
 theorem inv_step (w : World) (s : State) (t : Task) (rest : List Task) (hw : s.work = t :: rest)
@@ -310,7 +358,7 @@ theorem inv_step (w : World) (s : State) (t : Task) (rest : List Task) (hw : s.w
       have hu' : u ∈ s.done ++ [Task.local m l] := by
         have : (stepLocal w { s with work := rest, done := s.done ++ [Task.local m l] } m l).done
             = s.done ++ [Task.local m l] := by
-          unfold stepLocal; simp only; split <;> (try split) <;> rfl
+          unfold stepLocal; simp only; split <;> (try split) <;> (try split) <;> rfl
         simpa [this] using hu
       simp only [List.mem_append, List.mem_singleton] at hu'
       rcases hu' with hu' | rfl
@@ -329,6 +377,19 @@ theorem inv_step (w : World) (s : State) (t : Task) (rest : List Task) (hw : s.w
       rcases hu' with hu' | rfl
       · exact served_mono w (hle.trans h2) u (hi u hu')
       · exact served_stepDecl w _ m name
+    | qual m l x =>
+      have h2 := le_stepQual w { s with work := rest, done := s.done ++ [Task.qual m l x] } m l x
+      refine ⟨?_, hle.trans h2⟩
+      intro u hu
+      have hu' : u ∈ s.done ++ [Task.qual m l x] := by
+        have : (stepQual w { s with work := rest, done := s.done ++ [Task.qual m l x] } m l x).done
+            = s.done ++ [Task.qual m l x] := by
+          unfold stepQual; simp only; split <;> rfl
+        simpa [this] using hu
+      simp only [List.mem_append, List.mem_singleton] at hu'
+      rcases hu' with hu' | rfl
+      · exact served_mono w (hle.trans h2) u (hi u hu')
+      · exact served_stepQual w _ m l x
 
 /-- **a completed run has served everything and nothing waits** -/
 theorem run_inv (w : World) : ∀ (f : Nat) (s s' : State), Inv w s → run w f s = some s' →
